@@ -28,7 +28,7 @@ INPLACE_OK = ('reduce', 'allreduce', 'scan', 'exscan', 'reduce_scatter', 'reduce
               'scatter', 'scatterv', 'allgather', 'allgatherv', 'alltoall', 'alltoallv')
 ROOTED = ('bcast', 'reduce', 'gather', 'gatherv', 'scatter', 'scatterv')
 # at most this many base items in one rank's largest buffer
-MAX_ITEMS = 330000
+MAX_ITEMS = 160000
 
 
 def algo_of(plan, call):
@@ -46,14 +46,14 @@ def algo_of(plan, call):
 
 def _pick_count(r, np, kind, tier):
     cls = r.wchoice([('0', 1), ('1', 2), ('2', 1.5), ('np-1', 1.5), ('np', 1.5), ('np+1', 1.5), ('small', 3),
-                     ('large', 1.4 if tier == 'quick' else 2.0), ('huge', 0.15 if tier == 'quick' else 0.4)])
+                     ('large', 1.0 if tier == 'quick' else 1.6), ('huge', 0.1 if tier == 'quick' else 0.3)])
     if cls == 'small':
         return r.randint(3, 40)
     if cls == 'large':
         return r.choice([1023, 1024, 1025, 2048, 2049, 4095, 4097, 8191, 8192, 8193, 16385, 32768, 32769, 65536,
                          70001]) if r.chance(0.6) else r.randint(1024, 70000)
     if cls == 'huge':
-        return r.randint(70000, 300000)
+        return r.randint(70000, 160000)
     return max(0, {'0': 0, '1': 1, '2': 2, 'np-1': np - 1, 'np': np, 'np+1': np + 1}[cls])
 
 
@@ -66,9 +66,10 @@ def _types_for(r, kind):
                            (('2i', 'maxloc'), 1.5), (('2i', 'minloc'), 0.7),
                            (('i', 'user'), 1.5), (('d', 'user'), 1), (('c3', 'user'), 1), (('v2', 'user'), 1)])
         return combo[0], combo[0], combo[1], 1, 1
-    pair = r.wchoice([(('i', 'i', 1, 1), 5), (('d', 'd', 1, 1), 3), (('c3', 'c3', 1, 1), 1.2), (('v2', 'v2', 1, 1), 1.2),
-                      (('c3', 'i', 1, 3), 0.6), (('i', 'c3', 3, 1), 0.6), (('v2', 'c2', 1, 1), 0.6),
-                      (('c2', 'v2', 1, 1), 0.6), (('v2', 'i', 1, 2), 0.4), (('i', 'v2', 2, 1), 0.4)])
+    # send and receive types are the same: signature-compatible but different types (contiguous(3) sent, 3 ints
+    # received) break so many exotic algorithms that they are left out of the claim (see report / assumptions)
+    pair = r.wchoice([(('i', 'i', 1, 1), 5), (('d', 'd', 1, 1), 3), (('c3', 'c3', 1, 1), 1.3), (('v2', 'v2', 1, 1), 1.3),
+                      (('c2', 'c2', 1, 1), 0.4)])
     return pair[0], pair[1], 'none', pair[2], pair[3]
 
 
@@ -104,6 +105,8 @@ def gen_call(r, np, kind, tier, nb=None):
     cap = max(1, MAX_ITEMS // (per_rank_blocks * width))
     if kind in ('alltoall', 'alltoallv', 'alltoallw'):
         cap = max(1, cap // 2)
+    if sdt in ('c3', 'v2', 'c2'):      # SMPI copies derived types element by element: keep them moderate
+        cap = min(cap, 6000)
     if count > cap:
         count = cap - r.below(min(cap, 7))
     c['inplace'] = 1 if (kind in INPLACE_OK and r.chance(0.22)) else 0
@@ -266,10 +269,10 @@ class C29(dst.Check):
         for coll in focus:
             cfg['smpi/' + coll] = r.choice(algos[coll])
         kn = Rng(seed, 'knobs')
-        if kn.chance(0.5):
-            cfg['smpi/async-small-thresh'] = kn.choice([0, 16, 1024, 65536, 1000000])
-        if kn.chance(0.5):
-            cfg['smpi/send-is-detached-thresh'] = kn.choice([0, 16, 1024, 65536, 1000000])
+        if kn.chance(0.6):      # SMPI requires async-small-thresh <= send-is-detached-thresh (default 65536)
+            a, b = sorted([kn.choice([0, 16, 1024, 65536, 1000000]), kn.choice([0, 16, 1024, 65536, 1000000])])
+            cfg['smpi/send-is-detached-thresh'] = b
+            cfg['smpi/async-small-thresh'] = a
         if kn.chance(0.08):
             cfg['smpi/barrier-collectives'] = 'yes'
         ncalls = r.randint(5, 30 if tier == 'thorough' else 18)
@@ -284,7 +287,13 @@ class C29(dst.Check):
                 nb = None
             calls.append(gen_call(r, np, kind, tier, nb))
         r.shuffle(calls)
-        return dict(np=np, plat=plat, hosts=hosts, cfg=cfg, calls=calls)
+        plan = dict(np=np, plat=plat, hosts=hosts, cfg=cfg, calls=calls)
+        for c in calls:
+            # MPI_Alltoallv(MPI_IN_PLACE) with a type whose extent exceeds its size is mishandled by the binding, before
+            # any algorithm runs (known finding, keyed on the default algorithm): do not multiply it by every algorithm
+            if c['kind'] == 'alltoallv' and c['inplace'] and c['rdt'] == 'v2' and algo_of(plan, c)[1] != 'sel_default':
+                c['sdt'] = c['rdt'] = 'c2'
+        return plan
 
     # ---- execution ----------------------------------------------------------------------------------------
     def run(self, plan, scratch):
@@ -294,7 +303,7 @@ class C29(dst.Check):
                                            mc.coll_plan_text(plan), timeout=60)
         finally:
             mc.cleanup(sd)
-        R, T, D = {}, {}, set()
+        R, T, D, last = {}, {}, set(), {}
         lines = out.split('\n')
         for line in lines[:-1]:      # a line without its newline (abort in the middle of a write) is dropped
             try:
@@ -306,15 +315,26 @@ class C29(dst.Check):
                     T[(int(p[1]), int(p[2]))] = (float.fromhex(p[3]), float.fromhex(p[4]), int(p[5]))
                 elif line.startswith('D '):
                     D.add(int(line.split()[1]))
+                elif line.startswith('S ') or line.startswith('X '):
+                    p = line.split()
+                    last[int(p[2])] = int(p[1])
+                    last[-1] = int(p[1])
             except (ValueError, IndexError):
                 if rc == 0:
                     raise dst.Infra('malformed harness line: ' + line[:200])
         errl = [l for l in err.splitlines() if l.strip()]
         res = dict(rc=rc, timed_out=to, R={'%d,%d' % k: list(v) for k, v in R.items()},
                    T={'%d,%d' % k: list(v) for k, v in T.items()}, done=sorted(D), err='\n'.join(errl[:60])[:6000])
-        res['hash'] = dst.sha(rc, to, sorted(res['R'].items()), sorted(res['T'].items()), res['done'],
-                              re.sub(r'0x[0-9a-f]+', '0x', res['err'][:1500]))
+        res['last'] = {str(k): v for k, v in last.items()}
         self._verdict(plan, res)
+        # Hash: everything the verdict depends on.  A receive buffer enters as its CRC when it equals the reference and
+        # as the mark 'X' when it does not: the content of a wrong buffer is often uninitialised heap memory, which
+        # differs between processes; the oracle only uses equal / not equal.
+        bad = set(res['badbuf'])
+        rh = sorted((k, 'X' if k in bad else v[1]) for k, v in res['R'].items())
+        res['hash'] = dst.sha(rc, to, rh, sorted(res['T'].items()), res['done'], sorted(res['last'].items()),
+                              [l for l in re.sub(r'0x[0-9a-f]+|[0-9]+\.[0-9]+', '#', res['err']).splitlines()
+                               if 'CRITICAL' in l][:3])
         return res
 
     # ---- oracle -------------------------------------------------------------------------------------------
@@ -333,7 +353,7 @@ class C29(dst.Check):
         """fills res['viol'] (list of [cls,msg]), res['refused'] (list), res['checked'] (list of call indexes)"""
         np = plan['np']
         calls = plan['calls']
-        viol, refused, checked = [], [], []
+        viol, refused, checked, badbuf = [], [], [], []
         T = res['T']
         R = res['R']
         complete = (res['rc'] == 0 and not res['timed_out'] and len(res['done']) == np)
@@ -363,11 +383,11 @@ class C29(dst.Check):
             exp = ref.expected(c, np)
             isd = c['rdt'] == 'd'
             bad = None
-            for r in range(np):
+            for r in range(np - 1, -1, -1):
                 got = R.get('%d,%d' % (i, r))
                 if got is None:
                     bad = 'rank %d printed no receive buffer' % r
-                    break
+                    continue
                 nslots, crc, sendmod, vals = got
                 e = exp[r]
                 if nslots != len(e) - 2 * mc.GUARD:
@@ -375,7 +395,8 @@ class C29(dst.Check):
                                     (i, r, nslots, len(e) - 2 * mc.GUARD, c['kind']))
                 if sendmod:
                     bad = 'rank %d: send buffer modified by the call' % r
-                    break
+                    badbuf.append('%d,%d' % (i, r))
+                    continue
                 if vals is not None:
                     g = [float.fromhex(x) if 'x' in x or 'n' in x else int(x) for x in vals.split()]
                     if g != e:
@@ -385,19 +406,33 @@ class C29(dst.Check):
                         bad = 'rank %d: %s is %s, expected %s (%d of %d slots differ%s)' % (
                             r, where, g[k] if k < len(g) else '?', e[k], nbad, len(e) - 2 * mc.GUARD,
                             '; got canary' if k < len(g) and g[k] == mc.CANARY else '')
-                        break
+                        badbuf.append('%d,%d' % (i, r))
                 else:
                     b = ref.Buf(0)
                     b.s = e
                     if b.crc(isd) != crc:
                         bad = 'rank %d: CRC of the %d-slot receive allocation is %08x, expected %08x' % (
                             r, nslots, crc, b.crc(isd))
-                        break
+                        badbuf.append('%d,%d' % (i, r))
             if bad:
                 viol.append(['wrong:%s:%s' % (coll, algo), tag + ' ' + bad])
             checked.append(i)
         if not complete:
             i = first_incomplete
+            # blame the call the aborting actor was in: it names itself in the log prefix "[host:name:(pid) date]";
+            # without a prefix (signal) the last call entered by anybody is the running one (cooperative scheduling)
+            last = res.get('last', {})
+            m = re.search(r'^\[[^\]:]*:[^\]:]*:\((\d+)\) [0-9.]+\] .*(CRITICAL|Assertion|xception)', res['err'], re.M)
+            if not res['timed_out'] and 'Deadlock detected' not in res['err']:
+                j = None
+                if m and 0 <= int(m.group(1)) - 1 < np:
+                    j = last.get(str(int(m.group(1)) - 1))
+                    if j is not None and ('%d,%d' % (j, int(m.group(1)) - 1)) in T:
+                        j = None
+                elif not m:
+                    j = last.get('-1')
+                if j is not None:
+                    i = j
             if i is None:
                 coll, algo, tag = 'finalize', 'none', '[after the last call]'
             else:
@@ -410,6 +445,11 @@ class C29(dst.Check):
         res['viol'] = viol
         res['refused'] = refused
         res['checked'] = checked
+        res['badbuf'] = badbuf
+        if viol:
+            m = re.match(r'\[call=(\d+) ', viol[0][1])
+            if m:
+                plan['hint_call'] = int(m.group(1))     # lets shrink() try the blamed call first
 
     def oracle(self, plan, res):
         return [tuple(v) for v in res['viol']]
